@@ -37,9 +37,16 @@ def vg_entry(rng, name, wild=False):
         nf_max = round(nf_min + rng.uniform(-1, 9), 2)
     else:
         nf1 = rng.uniform(4.05, 8.0)
-        nf2 = nf1 + rng.uniform(0.1, 2.3)       # partly outside (0.3, 2): the clipped branch
-        g1a_max = gmax - 5
-        g1a_min = gmin - (gmax - gmin) - 5
+        if rng.random() < 0.4:
+            # coils within the accepted range but another inter-stage loss: reaches the clipped branch with a
+            # recomputed delta_p far from 5
+            nf2 = nf1 + rng.uniform(0.3, 2.0)
+            dp = rng.uniform(1.2, 10.5)
+        else:
+            nf2 = nf1 + rng.uniform(0.1, 2.3)       # partly outside (0.3, 2): the clipped branch, delta_p near 5
+            dp = 5
+        g1a_max = gmax - dp
+        g1a_min = gmin - (gmax - gmin) - dp
         nf_min = round(_lin2db(_db2lin(nf1) + _db2lin(nf2) / _db2lin(g1a_max)), 2)
         nf_max = round(_lin2db(_db2lin(nf1) + _db2lin(nf2) / _db2lin(g1a_min)), 2)
     return {'type_variety': name, 'type_def': 'variable_gain', 'gain_flatmax': gmax, 'gain_min': gmin,
